@@ -374,6 +374,9 @@ pub fn level_into(which: Which, rep: &mut Report) {
     // E2: the same programs free-running on real cores with delay injection
     let n_e2 = budget(tier, 1_500, 150_000);
     e2_pass(which, rep, n_e2);
+    if tier == Tier::Thorough && which == Which::C03 && std::env::var("PLV_NO_MIRI").is_err() {
+        crate::miri::sweep(rep, "level", seed, 4, budget(tier, 0, 96), "0.05");
+    }
     rep.rule = format!(
         "E1: seeded random programs (2-4 threads x 1-4 add / match / cancel / quantity-amend / read operations on a level pre-loaded with 1-4 orders, ids drawn from a tiny pool) executed by real threads under the baton scheduler: one shared-memory operation per step, strategies rw / PCT(d=1..3) / complete one-preemption delay sweep; {}; E2: the same programs free-running with delay injection. non-trivial = execution in which two threads touched the same order id with at least one mutator in overlapping calls; distinct = distinct (program, schedule) pairs (hash of the (thread, operation, call site) sequence)",
         match which {
@@ -621,14 +624,18 @@ fn queue_ledger(pre: &[model::Order], log: &[QRec], drained: &[model::Order], le
         *pushed.entry(model::key(&model::id_of(o))).or_default() += 1;
         push_call.insert(model::key(&model::id_of(o)), 0);
     }
+    // first all pushes (the log is not necessarily in real-time order)
+    for r in log {
+        if let QOp::Push(o) = &r.op {
+            let k = model::key(&model::id_of(o));
+            *pushed.entry(k).or_default() += 1;
+            let e = push_call.entry(k).or_insert(r.call);
+            *e = (*e).min(r.call);
+        }
+    }
     for r in log {
         match &r.op {
-            QOp::Push(o) => {
-                let k = model::key(&model::id_of(o));
-                *pushed.entry(k).or_default() += 1;
-                let e = push_call.entry(k).or_insert(r.call);
-                *e = (*e).min(r.call);
-            }
+            QOp::Push(_) => {}
             QOp::Pop | QOp::Remove(_) => {
                 if let Some(g) = &r.got {
                     *handed.entry(model::key(&model::id_of(g))).or_default() += 1;
@@ -924,6 +931,12 @@ pub fn run_c08(tier: Tier, seed: u64) -> i32 {
     let lvl_eval = rep.evaluations;
     run_queue_e1(&mut rep, budget(tier, 2_500, 60_000), budget(tier, 8, 24));
     run_queue_e2(&mut rep, ncpu().min(16), budget(tier, 40_000, 1_000_000));
+    if tier == Tier::Thorough && std::env::var("PLV_NO_MIRI").is_err() {
+        crate::miri::sweep(&mut rep, "queue", seed ^ 0x808, 4, budget(tier, 0, 96), "0.05");
+    }
+    if tier == Tier::Thorough && std::env::var("PLV_NO_TSAN").is_err() {
+        crate::tsan::run(&mut rep);
+    }
     rep.set("level_program_executions", json!(lvl_eval));
     rep.rule = format!("{} | queue family: seeded programs of 2-4 threads x 1-4 push / pop / remove / find / pop-then-re-push calls on the exported OrderQueue under the same scheduler; oracle: exactly-once ledger over unique orders after a final pop-until-empty (never handed out twice, never stranded), find consistent with the intervals; plus an E2 hammer of the queue by up to 16 free-running threads", rep.rule);
     rep.finish()
@@ -1056,6 +1069,144 @@ pub fn run_c14(tier: Tier, seed: u64) -> i32 {
             );
         }
     }
+    if tier == Tier::Thorough && std::env::var("PLV_NO_MIRI").is_err() {
+        crate::miri::sweep(&mut rep, "id generator", seed ^ 0x1414, 4, budget(tier, 0, 64), "0.05");
+    }
     rep.rule = "E1: 2-4 threads x 1-5 next() calls on one generator under the baton scheduler (the counter is a hooked atomic, so a split read-modify-write would get a scheduling point between its halves), namespaces nil / max / random; oracle: all ids distinct, equal as a set to a sequential generator with the same namespace, and two single-threaded generators agree on the sequence. E2: up to 16 free-running threads with delay injection. non-trivial = every execution (>= 2 threads contending on the counter); distinct = distinct (shape, schedule) pairs".into();
     rep.finish()
+}
+
+// ---------------------------------------------------------------------------------------------
+// `mini` mode: a handful of small programs, free-running, all history checkers compiled in.
+// This is what runs under Miri (cargo +nightly miri run -- mini <seed> <n>): Miri supplies the
+// interleavings (basic-block preemption, weak-memory emulation) and the UB / data-race detection.
+// ---------------------------------------------------------------------------------------------
+
+pub fn mini(seed: u64, n: u64) -> i32 {
+    let mut bad: Vec<String> = Vec::new();
+    let mut outcome = crate::rng::fnv(b"mini");
+    let mut ops = 0u64;
+    for i in 0..n {
+        let mut rng = Rng::derive(seed ^ 0x3141, i);
+        // level program
+        let mut cfg = ProgCfg::base();
+        cfg.threads = (2, 3);
+        cfg.ops = (1, 3);
+        cfg.preload = (1, 3);
+        let prog = conc::gen_program(&mut rng, &cfg);
+        let mut polled = Vec::new();
+        let ex = conc::run_e2(&prog, seed ^ i, 0, 0, &mut polled);
+        ops += ex.log.len() as u64;
+        let mut lst = LinStats {
+            ids_searched: 0,
+            nodes: 0,
+            capped: 0,
+        };
+        let mut f = lin::quiescent_basics(&ex);
+        f.extend(lin::per_order_linearizable(&ex, &mut lst));
+        f.extend(lin::stats_vs_events(&ex));
+        for l in ex.describe().iter().skip(1 + prog.threads.len()) {
+            // results only (drop the "[call..ret]" clock values: they differ between equal outcomes)
+            let body = l.splitn(2, "] ").nth(1).unwrap_or(l);
+            outcome = fnv_mix(outcome, crate::rng::fnv(body.as_bytes()));
+        }
+        f.extend(lin::drain_check(&ex));
+        for x in f {
+            bad.push(format!("level program {}: {} || {}", i, x, ex.describe().join(" / ")));
+        }
+        // queue program, free-running
+        let (pre, threads) = gen_qprog(&mut rng);
+        let q = Arc::new(OrderQueue::new());
+        for o in &pre {
+            q.push(Arc::new(*o));
+        }
+        let logs: Vec<Vec<QRec>> = std::thread::scope(|s| {
+            let hs: Vec<_> = threads
+                .iter()
+                .enumerate()
+                .map(|(ti, ops)| {
+                    let q = q.clone();
+                    let ops = ops.clone();
+                    s.spawn(move || {
+                        let mut log = Vec::new();
+                        for op in ops.iter() {
+                            let call = conc::E2_CLOCK.fetch_add(1, std::sync::atomic::Ordering::SeqCst);
+                            let got = match op {
+                                QOp::Push(o) => {
+                                    q.push(Arc::new(*o));
+                                    None
+                                }
+                                QOp::Pop => q.pop().map(|a| *a),
+                                QOp::Remove(id) => q.remove(*id).map(|a| *a),
+                                QOp::Find(id) => q.find(*id).map(|a| *a),
+                                QOp::PopRepush => {
+                                    let g = q.pop();
+                                    if let Some(a) = &g {
+                                        q.push(a.clone());
+                                    }
+                                    g.map(|a| *a)
+                                }
+                            };
+                            let ret = conc::E2_CLOCK.fetch_add(1, std::sync::atomic::Ordering::SeqCst);
+                            log.push(QRec {
+                                thread: ti,
+                                op: op.clone(),
+                                call,
+                                ret,
+                                got,
+                            });
+                        }
+                        log
+                    })
+                })
+                .collect();
+            hs.into_iter().map(|h| h.join().expect("queue thread")).collect()
+        });
+        let log: Vec<QRec> = logs.into_iter().flatten().collect();
+        ops += log.len() as u64;
+        let mut drained = Vec::new();
+        while let Some(a) = q.pop() {
+            drained.push(*a);
+            if drained.len() > 100 {
+                break;
+            }
+        }
+        for r in &log {
+            outcome = fnv_mix(outcome, r.got.map(|o| model::key(&model::id_of(&o)) as u64).unwrap_or(0) ^ (r.thread as u64) << 60);
+        }
+        for x in queue_ledger(&pre, &log, &drained, q.to_vec().len()) {
+            bad.push(format!("queue program {}: {} || {}", i, x, qprog_desc(&pre, &threads).join(" / ")));
+        }
+        // id generator
+        let g = Arc::new(UuidGenerator::new(Uuid::from_u128(seed as u128 + i as u128)));
+        let ids: Vec<Vec<Uuid>> = std::thread::scope(|s| {
+            let hs: Vec<_> = (0..3)
+                .map(|_| {
+                    let g = g.clone();
+                    s.spawn(move || (0..3).map(|_| g.next()).collect::<Vec<Uuid>>())
+                })
+                .collect();
+            hs.into_iter().map(|h| h.join().expect("idgen thread")).collect()
+        });
+        let flat: Vec<Uuid> = ids.into_iter().flatten().collect();
+        ops += flat.len() as u64;
+        let set: HashSet<Uuid> = flat.iter().copied().collect();
+        if set.len() != flat.len() {
+            bad.push(format!("id generator program {}: {} calls, {} distinct ids", i, flat.len(), set.len()));
+        }
+        let g2 = UuidGenerator::new(Uuid::from_u128(seed as u128 + i as u128));
+        let seq: HashSet<Uuid> = (0..flat.len()).map(|_| g2.next()).collect();
+        if seq != set {
+            bad.push(format!("id generator program {}: concurrent set differs from the sequential one", i));
+        }
+    }
+    println!("MINI-OUTCOME {:016x} programs={} operations={}", outcome, n, ops);
+    for b in &bad {
+        println!("MINI-VIOLATION {}", b);
+    }
+    if bad.is_empty() {
+        0
+    } else {
+        1
+    }
 }
